@@ -6,7 +6,8 @@ from .. import common, corpus, hyphlib as H
 THEOREMS = [
     "Lou.C17.hyph_refines_spec", "Lou.C17.hyph_refines_spec'", "Lou.C17.hyph_state_invariant",
     "Lou.C17.hyph_states_are_prefixes", "Lou.C17.hyph_fallback_correct", "Lou.C17.hyph_walk_bound",
-    "Lou.C17.hyphenate_format", "Lou.C17.hyphenate_writes", "Lou.C17.hyphenate_braille_format_partial",
+    "Lou.C17.hyphenate_format", "Lou.C17.hyphenate_writes", "Lou.C17.hyphenate_writes_braille",
+    "Lou.C17.hyphenate_braille_format_partial",
     "Lou.C17.f5_negative_offset", "Lou.C17.digit_only_line_ignored", "Lou.C17.braille_nul_overwritten",
     "Lou.Hyph.compileDict_ok", "Lou.Hyph.walk_refines", "Lou.Hyph.seek_spec", "Lou.Hyph.lssD_concat",
 ]
